@@ -12,7 +12,7 @@ use rsdd::builder::decision_nnf::{DecisionNNFBuilder, StandardDecisionNNFBuilder
 use rsdd::builder::sdd::{CompressionSddBuilder, SddBuilder};
 use rsdd::builder::{BottomUpBuilder, TopDownBuilder};
 use rsdd::constants::primes;
-use rsdd::repr::{create_semantic_hash_map, BddPtr, DDNNFPtr, PartialModel, SddPtr, VarLabel, WmcParams};
+use rsdd::repr::{create_semantic_hash_map, BddPtr, DDNNFPtr, SddPtr, VarLabel, WmcParams};
 use rsdd::util::semirings::{ExpectedUtility, FiniteField, RealSemiring};
 use serde_json::{json, Value};
 use std::collections::HashMap;
@@ -180,7 +180,7 @@ fn bdd_query<'a>(b: &'a AllBuilder<'a>, p: BddPtr<'a>, q: &Q, fx: &Fix) -> Resul
                     }
                 }
             }
-            digest_bdd(b.condition_model(p, &PartialModel::from_assignments(&a)), n)
+            digest_bdd(b.condition_model(p, &crate::props::wparams::build_model(&a, a.iter().filter(|x| x.is_some()).count())), n)
         }
     })
 }
